@@ -49,7 +49,8 @@ def blocks(tier, seed):
     # elongated domains whose equal-volume spheres overlap: the overlap removal has to discard several of them
     for l0 in BAR_LENGTHS:
         out.append({"kind": "bars", "first": l0, "tier": tier})
-    out.append({"kind": "droplets", "seedv": seed % 3})
+    for part in ("base", "rules", "gridseq"):
+        out.append({"kind": "droplets", "seedv": seed % 3, "part": part})
     out.append({"kind": "nonconvex"})
     out.append({"kind": "small", "shape": [6]})
     out.append({"kind": "small", "shape": [2, 3]})
@@ -91,11 +92,27 @@ def cases(block):
                         continue
                     c["aspect"] = block["aspect"]
                 yield c
-    elif block["kind"] == "droplets":
+    elif block["kind"] == "droplets" and block.get("part", "base") == "base":
         for shape, centres, R in (((32,), [[7.3], [22.1]], 3.2), ((24, 24), [[6.2, 6.9], [17.5, 16.1]], 3.4), ((24, 24), [[5.2, 5.9], [17.5, 6.1], [5.5, 17.7], [18.1, 18.4]], 3.1),
                                   ((32,), [[4.3], [12.1], [20.4], [27.9]], 1.6), ((10, 10, 10), [[2.6, 2.7, 2.4], [7.3, 7.1, 7.6]], 2.1)):
             for extra in (0.0, 0.13 * (1 + block["seedv"])):
                 yield {"kind": "droplets", "shape": list(shape), "centres": [[c + extra for c in cc] for cc in centres], "R": R}
+    elif block["kind"] == "droplets" and block["part"] == "rules":
+        # droplets of clearly different intensities: the threshold rules (extrema, mean, otsu) pick different sets
+        yield {"kind": "droplets", "shape": [32], "centres": [[4.3], [12.1], [20.4], [27.9]], "R": 1.6, "levels": [1.0, 0.25, 0.3, 0.2], "rules": True}
+        yield {"kind": "droplets", "shape": [24, 24], "centres": [[5.2, 5.9], [17.5, 6.1], [5.5, 17.7], [18.1, 18.4]], "R": 3.1, "levels": [1.0, 0.3, 0.25, 0.2], "rules": True}
+        # one bright droplet and n dim ones (family over n, the dim level and the bright radius): Otsu and the mid-point rule count differently
+        pos = [[4.2, 4.9], [12.5, 4.1], [20.1, 5.4], [4.5, 13.7], [12.2, 13.0], [20.3, 12.6], [8.1, 20.4], [16.9, 20.2]]
+        for ndim in (1, 3, 5, 7):
+            for lv in (0.2, 0.3, 0.45):
+                for Rb in (1.6, 3.1):
+                    yield {"kind": "droplets", "shape": [24, 24], "centres": pos[: ndim + 1], "R": 2.6, "levels": [1.0] + [lv] * ndim, "radii": [Rb] + [2.6] * ndim, "rules": True}
+    elif block["kind"] == "droplets" and block["part"] == "gridseq":
+        # histories: structure-factor methods on grids of equal shape and equal MEAN spacing but different per-axis spacing, fresh process
+        for a, b in (([1.0, 2.0], [2.0, 1.0]), ([2.0, 1.0], [1.0, 2.0]), ([1.0, 3.0], [3.0, 1.0]), ([1.5, 1.5], [1.0, 2.0])):
+            for m in ([3, 0], [0, 2], [2, 1]):
+                w = {"kind": "wave", "shape": [12, 12], "m": m, "amp": 3.0, "offset": 0.0, "phase": 0.0, "light": True}
+                yield {"sequence": [dict(w, aspect=a), dict(w, aspect=b)]}
     elif block["kind"] == "bars":
         for rest in itertools.product(BAR_LENGTHS, repeat=len(BAR_ROWS) - 1):
             lens = [block["first"]] + list(rest)
@@ -129,9 +146,11 @@ def build(case):
     if case["kind"] == "droplets":
         idx = np.meshgrid(*[np.arange(n) + 0.5 for n in shape], indexing="ij")
         f = np.zeros(shape)
-        for c in case["centres"]:
+        for i, c in enumerate(case["centres"]):
             d2 = sum((((x - ci + n / 2) % n) - n / 2) ** 2 for x, ci, n in zip(idx, c, shape))
-            f = np.maximum(f, 0.5 + 0.5 * np.tanh((case["R"] - np.sqrt(d2)) / 1.0))
+            lv = case["levels"][i] if case.get("levels") else 1.0
+            Ri = case["radii"][i] if case.get("radii") else case["R"]
+            f = np.maximum(f, lv * (0.5 + 0.5 * np.tanh((Ri - np.sqrt(d2)) / 1.0)))
         return f
     if case["kind"] == "bars":
         f = np.zeros(shape)
@@ -157,15 +176,45 @@ def build(case):
     return np.array(case["bits"], float).reshape(shape)
 
 
+def run_rules(case, ctx, f, tags):
+    """droplet counting with every threshold rule is unchanged when the field is multiplied by a positive constant (any magnitude)"""
+    from pde import ScalarField
+
+    from droplets import get_length_scale
+
+    shape = f.shape
+    counts = set()
+    for rule in ("extrema", "mean", "otsu"):
+        vals = []
+        for c in (1.0, 0.5, 1e3, 1e-9, 2.0**-40, 1e12):
+            ctx.op()
+            try:
+                vals.append(float(get_length_scale(ScalarField(grid_of(shape, 1.0), c * f), method="droplet_detection", threshold=rule)))
+            except Exception as e:  # noqa
+                vals.append(repr(e))
+        ok = all((not isinstance(v, str)) and (v == vals[0] or abs(v - vals[0]) <= 1e-9 * abs(vals[0])) for v in vals)
+        ctx.check("C17.field-scale", ok, {"rule": rule, "lengths": vals, "scales": [1.0, 0.5, 1e3, 1e-9, 2.0**-40, 1e12]}, dict(tags, method="droplet_detection", rule=rule))
+        counts.add(vals[0] if not isinstance(vals[0], str) else None)
+    if len(counts) > 1:
+        ctx.count("fields-where-threshold-rules-disagree")
+
+
 def run_case(case, ctx):
     from pde import ScalarField
 
     from droplets import get_length_scale
 
+    if "sequence" in case:
+        from mcx import core
+
+        ctx.count("grid-sequences")
+        return core.run_sequence_in_fork(run_case, case["sequence"], ctx, tag={"history": True})
     f = build(case)
     shape = f.shape
     dim = len(shape)
     tags = {"kind": case["kind"], "dim": dim}
+    if case.get("rules"):
+        return run_rules(case, ctx, f, tags)
     aspect = case.get("aspect") or [1.0] * dim
     if case.get("aspect"):
         ctx.count("equal-cell-counts-different-spacings")
@@ -312,4 +361,4 @@ def run_case(case, ctx):
 
 def expected_positive(tier):
     return ["C17.stretch", "C17.field-scale", "C17.shift", "C17.peak", "C17.detection", "non-constant-field", "equal-cell-counts-different-spacings",
-            "translated-images-with-droplets", "fields-with->=2-overlapping-sphere-pairs"]
+            "translated-images-with-droplets", "fields-with->=2-overlapping-sphere-pairs", "grid-sequences", "fields-where-threshold-rules-disagree"]
